@@ -6,7 +6,7 @@ import (
 	"runtime"
 	"sort"
 	"sync"
-	"sync/atomic"
+	"time"
 
 	"github.com/golang/protobuf/proto"
 	"github.com/openacid/slim/trie"
@@ -319,8 +319,14 @@ func runC11(ctx *Ctx, idx int) {
 	// ---- phase 2: G goroutines against the same instance
 	prev := runtime.GOMAXPROCS(procs)
 	defer runtime.GOMAXPROCS(prev)
-	var clock int64
-	var inflight int32
+	// Call/return instants come from the process's monotonic clock, read
+	// without any atomic or lock: a shared atomic counter would order the
+	// operations of different goroutines for the race detector
+	// (happens-before through the counter) and hide every race whose two
+	// accesses do not overlap in time - a lazily initialised field written by
+	// one reader and read later by another, for instance. In-flight counts are
+	// computed afterwards from the recorded intervals.
+	base := time.Now()
 	type gres struct {
 		events []concEvent
 		bad    []string
@@ -332,10 +338,18 @@ func runC11(ctx *Ctx, idx int) {
 	// one representative operation per API, Marshal/String/Stat first
 	var burst []int
 	for _, api := range []string{"Marshal", "String", "Stat", "proto.Size", "NewIter", "ScanFrom", "ScanFromTo", "Search", "RangeGet", "Get", "GetID", "GetI32"} {
+		// the first, a middle and the last operation of that API (queries
+		// differ: present and absent keys take different paths)
+		var of []int
 		for oi, op := range ops {
 			if op.api == api {
-				burst = append(burst, oi)
-				break
+				of = append(of, oi)
+			}
+		}
+		if len(of) > 0 {
+			burst = append(burst, of[0])
+			if len(of) > 2 {
+				burst = append(burst, of[len(of)/2], of[len(of)-1])
 			}
 		}
 	}
@@ -355,16 +369,14 @@ func runC11(ctx *Ctx, idx int) {
 			for _, oi := range burst {
 				bar.wait()
 				op := ops[oi]
-				inf := atomic.AddInt32(&inflight, 1)
-				call := atomic.AddInt64(&clock, 1)
+				call := int64(time.Since(base))
 				var got string
 				pv, _ := try(func() { got = op.run() })
-				ret := atomic.AddInt64(&clock, 1)
-				atomic.AddInt32(&inflight, -1)
+				ret := int64(time.Since(base))
 				if pv != nil {
 					got = pstr(pv)
 				}
-				res.events = append(res.events, concEvent{api: apiIndex(op.api), call: call, ret: ret, inflightAt: inf})
+				res.events = append(res.events, concEvent{api: apiIndex(op.api), call: call, ret: ret})
 				if got != canon[oi] && len(res.bad) < 3 {
 					res.bad = append(res.bad, fmt.Sprintf("%s (first-use burst): concurrent %q solo %q", op.api, truncate(got, 200), truncate(canon[oi], 200)))
 				}
@@ -376,16 +388,14 @@ func runC11(ctx *Ctx, idx int) {
 					if gr.Chance(1, 4) {
 						runtime.Gosched()
 					}
-					inf := atomic.AddInt32(&inflight, 1)
-					call := atomic.AddInt64(&clock, 1)
+					call := int64(time.Since(base))
 					var got string
 					pv, _ := try(func() { got = op.run() })
-					ret := atomic.AddInt64(&clock, 1)
-					atomic.AddInt32(&inflight, -1)
+					ret := int64(time.Since(base))
 					if pv != nil {
 						got = pstr(pv)
 					}
-					res.events = append(res.events, concEvent{api: apiIndex(op.api), call: call, ret: ret, inflightAt: inf})
+					res.events = append(res.events, concEvent{api: apiIndex(op.api), call: call, ret: ret})
 					if got != canon[oi] && len(res.bad) < 3 {
 						res.bad = append(res.bad, fmt.Sprintf("%s: concurrent %q solo %q", op.api, truncate(got, 200), truncate(canon[oi], 200)))
 					}
@@ -424,6 +434,7 @@ func runC11(ctx *Ctx, idx int) {
 			matrix[ev.api][a.api] = true
 		}
 		active = append(active, ev)
+		ev.inflightAt = int32(len(active))
 		if ev.inflightAt >= 2 {
 			multi++
 		}
